@@ -1037,7 +1037,8 @@ def mutants(rnd, base: Dict[str, Any], all_values: bool = True) -> List[Dict[str
             kind = "remove-array-variable"
         elif v in {a["idx"] for a in base.get("arrays", [])}:
             kind = "remove-index-variable"
-        add(kind, "undefined-variable", d, [v, list(layer)])
+        add(kind, "undefined-variable", d, [v, list(layer)],
+            replica_index=any(a.get("replica") and a["arr"] == v for a in base.get("arrays", [])))
     # -- array accesses: rename the array / the index variable at the place of use; out-of-range index (info)
     for a in base.get("arrays", []):
         ci = ids.get(a["comp"])
@@ -1060,7 +1061,8 @@ def mutants(rnd, base: Dict[str, Any], all_values: bool = True) -> List[Dict[str
         n, k = site(d)
         n[k] = text.replace("%(" + a["arr"] + ")s[", "%(no_such_array)s[")
         if n[k] != text:
-            add("rename-array-at-use", "undefined-variable", d, [a["comp"]] + a["path"], variable=a["arr"])
+            add("rename-array-at-use", "undefined-variable", d, [a["comp"]] + a["path"], variable=a["arr"],
+                replica_index=bool(a.get("replica")))
         if a["idx"]:
             d = copy.deepcopy(doc)
             n, k = site(d)
